@@ -737,7 +737,8 @@ func (s *v4Server) reserveLease(mac net.HardwareAddr) (l *dhcpsvc.Lease, err err
 			return nil, nil
 		}
 
-		copy(s.leases[i].HWAddr, mac)
+		// Don't copy into the previous address, since its length may differ.
+		s.leases[i].HWAddr = slices.Clone(mac)
 
 		return s.leases[i], nil
 	}
